@@ -57,13 +57,14 @@ def budget(tier):
 def _cases(draw):
     d = D(draw)
     desc = gen_schema(d, defaults=0.5, input_heavy=d.bool(0.6), mutation=True, subscription=d.bool(0.2))
-    sdl = render_sdl_rich(d, desc)
+    target = d.weighted([(5, "schema_out.py"), (2, "out/schema.graphql"), (1, "schema.gql"), (1, "Schema.PY")])
+    # KF-C16-2 (an empty description vanishes) only exists for the printed .graphql / .gql target
+    sdl = render_sdl_rich(d, desc, empty_descriptions_ok=target.lower().endswith(".py"))
     try:
         schema = build_schema(sdl)
         assert_valid_schema(schema)
     except Exception as exc:  # noqa: BLE001
         return {"rejected": f"schema: {exc}"[:300], "sdl": sdl}
-    target = d.weighted([(5, "schema_out.py"), (2, "out/schema.graphql"), (1, "schema.gql"), (1, "Schema.PY")])
     source = d.weighted([(5, "file"), (2, "dir"), (2, "introspection")])
     cfg = {"target_file_path": target}
     if d.bool(0.5):
